@@ -117,6 +117,8 @@ def specFlush (rb : RB) (old : GridTerm) (lines cols : Nat) (impl : String) : St
     -- the hypothesis of `flush_spec` minus the CHAR-width clause is C03's invariant: it must hold of every buffer a
     -- drawing program produces (tested here on every flush; proved in C03)
     if !flushWFPb (fun _ => true) rb then "the buffer is not well-formed (FlushWFP fails): C03 invariant broken?"
+    -- the specification asks nothing of a terminal narrower than the buffer (hypothesis `rb.cols ≤ t.cols` of flush_spec)
+    else if rb.cols > old.cols then ""
     else if field ts "r" != some "ok" then "flush did not complete"
     else match (field ts "grid").bind parseGrid with
       | none => "unparsable grid"
@@ -145,6 +147,7 @@ def newTerm (tl tc : Nat) (oracle : Nat) (ws : Bool) (pen : Option Pen) (seed : 
   { cells := fun l c => { glyph := .chars [sentinel seed l.toNat c.toNat], pen := p, writes := 0 }
     line := (seed % (if tl = 0 then 1 else tl) : Nat)
     col := ((seed / 7) % (if tc = 0 then 1 else tc) : Nat)
+    cols := tc
     pen := p
     oracle := fun k => (oracle >>> (k % 31)) % 2 == 1
     viaWriteStr := ws }
